@@ -53,7 +53,7 @@ func fieldVarOf(v ssa.Value) *types.Var {
 
 // signalOperand resolves the operand of close(x) / wg.Done() inside the goroutine body to a joinSignal.
 // bindings maps the body's free variables to the spawner's values (nil for a named function).
-func signalOperand(x ssa.Value, body *ssa.Function, bindings []ssa.Value, what string) *joinSignal {
+func signalOperand(x ssa.Value, body *ssa.Function, bindings, goArgs []ssa.Value, what string) *joinSignal {
 	if u, ok := x.(*ssa.UnOp); ok && u.Op == token.MUL {
 		x = u.X
 	}
@@ -62,6 +62,34 @@ func signalOperand(x ssa.Value, body *ssa.Function, bindings []ssa.Value, what s
 		for i, fv := range body.FreeVars {
 			if fv == y && i < len(bindings) {
 				return &joinSignal{alloc: bindings[i], what: what}
+			}
+		}
+	case *ssa.Alloc:
+		// a parameter spilled into a local because a closure of the goroutine captures it
+		var prm *ssa.Parameter
+		stores := 0
+		for _, r := range core.Referrers(y) {
+			if st, ok := r.(*ssa.Store); ok && st.Addr == y {
+				stores++
+				prm, _ = st.Val.(*ssa.Parameter)
+			}
+		}
+		if stores == 1 && prm != nil {
+			return signalOperand(prm, body, bindings, goArgs, what)
+		}
+	case *ssa.Parameter:
+		// a named goroutine function that is handed the channel / WaitGroup: go o.load(ctx, &dst, errChan)
+		for i, prm := range body.Params {
+			if prm == y && i < len(goArgs) {
+				a := goArgs[i]
+				for {
+					if ct, ok := a.(*ssa.ChangeType); ok {
+						a = ct.X
+						continue
+					}
+					break
+				}
+				return &joinSignal{alloc: a, what: what}
 			}
 		}
 	case *ssa.FieldAddr:
@@ -133,9 +161,12 @@ func ruleJoin(p *core.Program) []core.Obligation {
 					})
 				}
 				key := fmt.Sprintf("%s joins go %s", core.FuncName(spawner), core.FuncName(e))
-				var bindings []ssa.Value
+				var bindings, goArgs []ssa.Value
 				if mc, ok := g.Call.Value.(*ssa.MakeClosure); ok && spawner == fn {
 					bindings = mc.Bindings
+				}
+				if g.Call.StaticCallee() == e && spawner == fn {
+					goArgs = g.Call.Args
 				}
 				var sigs []*joinSignal
 				core.EachInstr(e, func(_ *ssa.BasicBlock, _ int, x ssa.Instruction) {
@@ -144,12 +175,12 @@ func ruleJoin(p *core.Program) []core.Obligation {
 						return
 					}
 					if bi, ok := d.Call.Value.(*ssa.Builtin); ok && bi.Name() == "close" && len(d.Call.Args) == 1 {
-						if s := signalOperand(d.Call.Args[0], e, bindings, "closes its channel on exit"); s != nil {
+						if s := signalOperand(d.Call.Args[0], e, bindings, goArgs, "closes its channel on exit"); s != nil {
 							sigs = append(sigs, s)
 						}
 					}
 					if core.IsStatic(&d.Call, "(*sync.WaitGroup).Done") && len(d.Call.Args) == 1 {
-						if s := signalOperand(d.Call.Args[0], e, bindings, "releases its WaitGroup on exit"); s != nil {
+						if s := signalOperand(d.Call.Args[0], e, bindings, goArgs, "releases its WaitGroup on exit"); s != nil {
 							sigs = append(sigs, s)
 						}
 					}
